@@ -27,6 +27,8 @@ LOWERING = {
     'scalar-noinline': ['-fno-inline'],
     # scalar code path with assert() compiled out, as in the optim/release builds (-DNDEBUG) on a host without AVX2
     'scalar-ndebug': ['-DNDEBUG'],
+    # AVX2 code path (#ifdef __AVX2__ branches, inline asm) with calls kept out of line for modular queries
+    'avx2-noinline': ['-mavx2', '-mfma', '-DNDEBUG', '-fno-inline'],
 }
 HOOK_DEFINE = '-DTFHE_VERIF'
 
